@@ -65,7 +65,7 @@ impl<'a> PatGen<'a> {
                 3 if self.mask & M_CLASS != 0 => "\\s".into(),
                 4 if self.mask & M_CLASS != 0 => "[a-c]".into(),
                 5 if self.mask & M_CLASS != 0 => "[^a]".into(),
-                6 if self.mask & M_CLASS != 0 && !self.ascii => "[aé𝒳]".into(),
+                6 if self.mask & M_CLASS != 0 && !self.ascii => ["[aé𝒳]", "[^é]", "[^ß𝒳]"][self.rng.usize_below(3)].into(),
                 7 if self.mask & M_CLASS != 0 => "[ab]".into(),
                 _ => self.lit(),
             };
